@@ -133,13 +133,13 @@ def generate(rng, tier, prop):
     maxops = 30 if tier == "quick" else rng.choice([30, 30, 45])
     nops = rng.randint(1, maxops)
     # size swarm: a few long histories over a wider key universe (thresholds, caches, quadratic paths)
-    if rng.random() < (0.01 if tier == "quick" else 0.06):
+    if rng.random() < (0.01 if tier == "quick" else 0.02):
         wide = [chr(ord("a") + i) for i in range(rng.choice([6, 12, 26]))]
         pool += [{"t": "entry", "type": rng.choice(["article", "book"]), "key": rng.choice(wide), "v": rng.randint(0, 1)}
                  for _ in range(rng.choice([20, 60, 150]))]
         pool += [{"t": "string", "key": rng.choice(wide), "v": rng.randint(0, 1)} for _ in range(rng.choice([5, 20]))]
         npool = len(pool)
-        nops = rng.randint(80, 250 if tier == "quick" else 1200)
+        nops = rng.randint(80, 250 if tier == "quick" else 600)
     w_add, w_rem, w_rep = rng.choice([(5, 2, 3), (4, 3, 3), (3, 3, 4), (6, 1, 3), (3, 5, 2)])
     p_fail = rng.choice([0.2, 0.5, 0.8])
     p_list = rng.choice([0.15, 0.35])
